@@ -301,10 +301,18 @@ func (c *Ctx) checkAsyncSemantics(r *Report, ro *Roles, rule string) bool {
 					break
 				}
 				worker.Preemptible = true
-				if !submit(true, 0, 0) {
+				if !submit(false, 300, 0) || !submit(true, 0, 0) { // an event first, so that the write is really queued
 					return false
 				}
-				for n := 0; n < 50 && len(delivered) == 0 && worker.State != "done"; n++ {
+				sawRaw := func() bool {
+					for _, d := range delivered {
+						if d.what == "r2" {
+							return true
+						}
+					}
+					return false
+				}
+				for n := 0; n < 80 && !sawRaw() && worker.State != "done"; n++ {
 					sched.Step(worker)
 					if failed(worker, "the worker") {
 						return false
@@ -320,12 +328,12 @@ func (c *Ctx) checkAsyncSemantics(r *Report, ro *Roles, rule string) bool {
 				for _, app := range []string{"appender0", "appender1"} {
 					var seq []string
 					for _, d := range delivered {
-						if d.sink == app {
+						if d.sink == app && strings.HasPrefix(d.what, "r") {
 							seq = append(seq, d.what)
 						}
 					}
-					if len(seq) != 2 || seq[0] != "r1" || seq[1] != "r2" {
-						fail("%s: %s receives %v, want [r1 r2] (each raw write once, in call order)", lifeDesc, app, seq)
+					if len(seq) != 2 || seq[0] != "r2" || seq[1] != "r3" {
+						fail("%s: %s receives the raw writes as %v, want [r2 r3] (each once, in call order)", lifeDesc, app, seq)
 					}
 				}
 				worker.Preemptible = false
@@ -345,7 +353,7 @@ func (c *Ctx) checkAsyncSemantics(r *Report, ro *Roles, rule string) bool {
 				return true
 			}
 			if race > 6 {
-				total = capN + 3 // the pre-filled part leaves exactly one free slot for the two racers
+				total = capN - 1 // exactly one free slot for the two racers
 			}
 			for i := 1; i <= total-4 && okRun; i++ {
 				lvl := int64(300)
@@ -373,7 +381,7 @@ func (c *Ctx) checkAsyncSemantics(r *Report, ro *Roles, rule string) bool {
 				submitted = append(submitted, a, bIt)
 				ta, tb := mkTask(a), mkTask(bIt)
 				ta.Preemptible = true
-				for k := 0; k <= (race-1)%6+1 && ta.State != "done"; k++ {
+				for k := 0; k < (race-1)%6+1 && ta.State != "done"; k++ {
 					st := sched.Step(ta)
 					if failed(ta, ta.Name) {
 						return false
